@@ -97,6 +97,13 @@ def _val_text(v, dtype):
     return str(v)
 
 
+def _csv_field(v):
+    """One field of a comma separated list, quoted the standard way when it has to be."""
+    if any(c in v for c in ',"\n\r'):
+        return '"' + v.replace('"', '""') + '"'
+    return v
+
+
 def _card(c):
     return "(%s, %s)" % (c[0], c[1])
 
@@ -107,7 +114,8 @@ def _el(tag, text, indent):
     text = str(text)
     if text == "":
         return "%s<%s></%s>" % (indent, tag, tag)
-    return "%s<%s>%s</%s>" % (indent, tag, escape(text), tag)
+    # a carriage return has to be written as a character reference (XML normalises line ends)
+    return "%s<%s>%s</%s>" % (indent, tag, escape(text, {"\r": "&#13;"}), tag)
 
 
 def emit(spec, perm_seed=0, with_decl=True, comments=True):
@@ -131,13 +139,15 @@ def emit(spec, perm_seed=0, with_decl=True, comments=True):
                  _el("value_origin", p.get("value_origin"), ind + "\t")]
         if p.get("val_card"):
             parts.append(_el("val_cardinality", _card(p["val_card"]), ind + "\t"))
-        vals = [_val_text(v, p["dtype"]) for v in p["values"]]
-        if len(vals) == 1 and vals[0].strip() == "":
-            parts.append(_el("value", '[""]', ind + "\t"))   # one empty string, not "no value"
+        vals = [_val_text(v, p["dtype"]).strip() for v in p["values"]]
+        if len(vals) == 1 and (vals[0] == "" or (vals[0][0] == "[" and vals[0][-1] == "]")):
+            # one empty string is not "no value"; one bracketed text is not a list
+            parts.append(_el("value", "[" + _csv_field(vals[0] or '') + "]" if vals[0] else '[""]',
+                             ind + "\t"))
         elif len(vals) == 1:
             parts.append(_el("value", vals[0], ind + "\t"))
         elif len(vals) > 1:
-            parts.append(_el("value", "[" + ",".join(vals) + "]", ind + "\t"))
+            parts.append(_el("value", "[" + ",".join(_csv_field(v) for v in vals) + "]", ind + "\t"))
         elif rnd.random() < 0.5:
             parts.append("%s\t<value/>" % ind)
         parts = [x for x in parts if x is not None]
